@@ -46,37 +46,37 @@ theorem selBy_replicate_false {β : Type} : ∀ (y : List β), selBy y (List.rep
         if_true, List.map_cons]
       rw [ih]
 
-theorem iterate_none (step : State → Option (State × Outcome)) (maxiter : Int) (fuel : Nat) (s t : State)
-    (h : step s = some (t, Outcome.none)) : iterate step maxiter (fuel + 1) s = some t := by
+theorem iterate_none (step : State → Option (State × Outcome × Option State)) (maxiter : Int) (fuel : Nat) (s t : State)
+    (h : step s = some (t, Outcome.none, none)) : iterate step maxiter (fuel + 1) s = some t := by
   unfold iterate
   rw [h]
 
-theorem iterateD_none (step : DState → Option (DState × Outcome)) (maxiter : Int) (fuel : Nat) (s t : DState)
-    (h : step s = some (t, Outcome.none)) : iterateD step maxiter (fuel + 1) s = some t := by
+theorem iterateD_none (step : DState → Option (DState × Outcome × Option DState)) (maxiter : Int) (fuel : Nat) (s t : DState)
+    (h : step s = some (t, Outcome.none, none)) : iterateD step maxiter (fuel + 1) s = some t := by
   unfold iterateD
   rw [h]
 
 theorem stepFirst_noflags (sigma : ℚ) (m : MinLim) (n : Nat) (xp : XP) (s : State)
     (h : nonzeroIdx s.flags = []) :
-    stepFirst sigma m n xp s = some ({ s with niter := s.niter + 1 }, Outcome.none) := by
+    stepFirst sigma m n xp s = some ({ s with niter := s.niter + 1 }, Outcome.none, none) := by
   unfold stepFirst lastTrue
   simp only [h, List.getLast?_nil]
 
 theorem stepLast_noflags (sigma : ℚ) (m : MinLim) (n : Nat) (xp : XP) (s : State)
     (h : nonzeroIdx s.flags = []) :
-    stepLast sigma m n xp s = some ({ s with niter := s.niter + 1 }, Outcome.none) := by
+    stepLast sigma m n xp s = some ({ s with niter := s.niter + 1 }, Outcome.none, none) := by
   unfold stepLast firstTrue
   simp only [h, List.head?_nil]
 
 theorem stepFirstD_noflags (sigma : ℚ) (m : MinLim) (n : Nat) (xp : XP) (s : DState)
     (h : nonzeroIdx s.flags = []) :
-    stepFirstD sigma m n xp s = some ({ s with niter := s.niter + 1 }, Outcome.none) := by
+    stepFirstD sigma m n xp s = some ({ s with niter := s.niter + 1 }, Outcome.none, none) := by
   unfold stepFirstD lastTrue
   simp only [h, List.getLast?_nil]
 
 theorem stepLastD_noflags (sigma : ℚ) (m : MinLim) (n : Nat) (xp : XP) (s : DState)
     (h : nonzeroIdx s.flags = []) :
-    stepLastD sigma m n xp s = some ({ s with niter := s.niter + 1 }, Outcome.none) := by
+    stepLastD sigma m n xp s = some ({ s with niter := s.niter + 1 }, Outcome.none, none) := by
   unfold stepLastD firstTrue
   simp only [h, List.head?_nil]
 
